@@ -7,7 +7,7 @@ from typing import Dict, List, Optional, Set, Tuple
 
 from ..db import ProgramDB, FuncInfo, ClassInfo, AnalysisError, unparse, own_nodes, dotted
 from ..cfg import CFG, Node
-from ..facts import call_attr
+from ..facts import call_attr, is_cache_switch_call
 from ..framework import inst, HOLDS, VIOLATION, UNDECIDED, INFO, Instance
 from ..abseval import AbsEval, State, const, TOP, TRUE, FALSE, truth, fmt
 
@@ -28,7 +28,7 @@ def operator_truth_profile(db: ProgramDB, cls_name: str, env: dict) -> Set[Tuple
         return None
 
     def call_hook(c, st, ev):
-        if (dotted(c.func) or "") == "is_caching_enabled":
+        if is_cache_switch_call(db, m, c):
             return FALSE
         if call_attr(c) == "_is_duplicate_output_":
             return FALSE
